@@ -47,6 +47,34 @@ func c12Entries() []c12Entry {
 		}
 	}
 	out("text")
+	// the same entry points with a writer that fails from its k-th write on: still no panic, no hang
+	for _, k := range []int{0, 1, 3} {
+		k := k
+		for _, mode := range []string{"text", "json", "dryrun", "yaml"} {
+			mode := mode
+			for _, massive := range []bool{false, true} {
+				massive := massive
+				es = append(es, c12Entry{name: "OutputFromMarkdown[" + mode + ",writer-fails-at-" + strconv.Itoa(k) + "]", massive: massive, run: func(doc string, ctx context.Context, _ string) ([]byte, int, Outcome) {
+					var opts []gtree.Option
+					switch mode {
+					case "json":
+						opts = append(opts, gtree.WithEncodeJSON())
+					case "yaml":
+						opts = append(opts, gtree.WithEncodeYAML())
+					case "dryrun":
+						opts = append(opts, gtree.WithDryRun())
+					}
+					if massive {
+						opts = append(opts, gtree.WithMassive(ctx))
+					}
+					w := mon.NewRecWriter()
+					w.FailAt = k
+					o := Guard(func() error { return gtree.OutputFromMarkdown(w, strings.NewReader(doc), opts...) })
+					return nil, 0, o
+				}})
+			}
+		}
+	}
 	out("text.noiter", gtree.WithNoUseIterOfSimpleOutput())
 	out("branch", BranchOptions(3)...)
 	out("json", gtree.WithEncodeJSON())
